@@ -77,6 +77,25 @@ def cases(rng, tier):
                 big = n1 >= 10 ** 5
                 yield Case(program=prog, tag=name, monitor='c05_value', data=(name, want, False), format_io=True,
                            timeout=600 if big else 60, fuel=400 * n1 + 10 ** 6, skip_model=(n1 >= 10 ** 6), nontrivial=n1 >= 100)
+    # the loop's result consumed more than once afterwards (read again from its cell), and loops inside loops
+    CONSUME = {
+        'twice-eq': (lambda x: f"({x}) (ㄱㅇㄱ ㄱㅇㄱ ㄴㅎㄷ ㅎ) ㅎㄴ", lambda w: "True"),
+        'twice-list': (lambda x: f"({x}) (ㄱㅇㄱ ㄱㅇㄱ ㄱㅇㄱ ㅁㄹㅎㄹ ㅎ) ㅎㄴ", lambda w: f"[{w}, {w}, {w}]"),
+        'first-operand': (lambda x: f"({x}) ({x}) ㄴㅎㄷ", lambda w: "True"),
+    }
+    for name, mk in TAIL.items():
+        for n in ([600, 10 ** 4] if tier == 'quick' else [600, 3000, 10 ** 4, 10 ** 5]):
+            prog, want = mk(n)
+            for cname, (wrap, exp) in CONSUME.items():
+                if name == 'rbind' and cname in ('twice-list', 'first-operand'):
+                    continue                      # actions: printed unexecuted / compared by identity — C07's business
+                yield Case(program=wrap(prog), tag=f'{name}+{cname}', monitor='c05_value', data=(name, exp(want), False), format_io=True,
+                           timeout=600, fuel=1000 * n + 10 ** 6, nontrivial=True)
+    # an outer tail loop that consumes an inner tail loop's result in every round: g(m) = m == 0 ? 0 : g(m - 1 + f(n))
+    for m, n in ([(30, 700)] if tier == 'quick' else [(30, 700), (300, 3000), (2000, 600)]):
+        inner = countdown(n)[0]
+        yield Case(program=f"{enc(m)} ㄱ (((ㄱㅇㄱ ㄴㄱ ({inner}) ㄷㅎㄹ) ㄱㅇ ㅎㄴ)) {COND} ㅎㄷ ㅎ ㅎㄴ".replace("ㄱ (((", "(ㄱ ((").replace(f"{COND} ㅎㄷ ㅎ ㅎㄴ", f"{COND} ㅎㄷ ㅎ) ㅎㄴ"),
+                   tag='nested-loops', monitor='c05_value', data=('nested-loops', "0", False), timeout=600, fuel=10 ** 9, nontrivial=True)
     # non-tail recursion across the frame limit: implementation and model must agree exactly on
     # which depth first reports the limit
     depths = [10, 100, 1000, 2000, 2400, 2480, 2490, 2495, 2496, 2497, 2498, 2499, 2500, 2501, 2502, 2505, 2520, 2600, 3000, 4990, 5000, 5010, 6000]
@@ -102,7 +121,7 @@ SPEC = {
     'relevant': relevant,
     'stream': 'C05 loop ladder',
     'rule': 'loop shapes self / with accumulator / mutual / via Boolean selection / inside a ㄱㄹ chain / tail call delivered through a helper function, an identity wrapper, or a thunk handed along × iteration counts '
-            '10^0…10^4 (quick) …10^6 (thorough) (+ a random offset): must complete with the arithmetically known value, '
+            '10^0…10^4 (quick) …10^6 (thorough) (+ a random offset): must complete with the arithmetically known value, also when the result is afterwards consumed two or three times or by an enclosing loop, '
             'never a host RecursionError; non-tail recursion at depths straddling the frame limit: implementation and '
             'model must agree on every depth whether the explicit limit is reported; left-nested bind / deep printing '
             'families to depth 1000 (recorded findings). Non-trivial = n ≥ 100',
